@@ -170,11 +170,31 @@ where
       (match fld f "nillable" with | .bool b => b | _ => true)⟩
     let dflt : Option Leaf := match fld f "dflt" with | .null => none | x => some (jLeaf x)
     let ro := match fld f "ro" with | .bool b => b | _ => false
+    let encd := match (fld f "t").getObjVal? "encd" with | .ok (.bool b) => b | _ => false
     match fld f "py" with
-    | .null => (jText (fld f "n"), { dflt := dflt, readOnly := ro }, occ, jDTy (fld f "t"))
-    | py => (jText py, { sub := some (jText (fld f "n")), dflt := dflt, readOnly := ro }, occ, jDTy (fld f "t"))
+    | .null => (jText (fld f "n"), { dflt := dflt, readOnly := ro, encDeclared := encd }, occ, jDTy (fld f "t"))
+    | py => (jText py, { sub := some (jText (fld f "n")), dflt := dflt, readOnly := ro, encDeclared := encd }, occ,
+        jDTy (fld f "t"))
 
 def jDFields (j : Json) : List DFld := (jArr j).map jDTy.jDFld
+
+/-- a value with identity: objects carry "id"; a list of leaves / of objects -/
+partial def jLNode (j : Json) : LNode :=
+  match j with
+  | .null => .none
+  | _ =>
+    match j.getObjVal? "o" with
+    | .ok (.arr a) =>
+      .obj (match j.getObjVal? "id" with | .ok n => jNat n | _ => 0)
+        (a.toList.map fun kv => match kv with
+          | .arr p => (jText (p[0]?.getD .null), jLNode (p[1]?.getD .null))
+          | _ => ([], .none))
+    | _ =>
+      match j.getObjVal? "l" with
+      | .ok (.arr a) =>
+        if (j.getObjVal? "objs").toOption.isNone then .leaves (a.toList.map jLeaf)
+        else .arr (a.toList.map jLNode)
+      | _ => .leaf (jLeaf j)
 
 /-- a native object in the encoding of `nodeJson`, read back under the guidance of the type -/
 partial def jNode (many : Bool) (t : Flat.Ty) (j : Json) : Node :=
@@ -254,6 +274,10 @@ def step (j : Json) : Json :=
       | .arr a => (jText (a[0]?.getD .null), jText (a[1]?.getD .null))
       | _ => ([], [])
     outJson nodeJson (decode F (jCfg (fld j "cfg")) (jFields (fld j "fields")) (httpHeaders env))
+  | "flat.encode.shared" =>
+    let fs := jFields (fld j "fields")
+    Json.arr ((encodeShared F (jText (fld j "delim")) fs (jLNode (fld j "inst"))).map (fun kv =>
+      Json.arr #[textJson kv.1, encValJson kv.2])).toArray
   | "flat.encode" =>
     let fs := jFields (fld j "fields")
     let inst := jNode false (.obj 0 fs) (fld j "inst")
